@@ -1083,6 +1083,11 @@ func (kcp *KCP) SetMtu(mtu int) int {
 		return -1
 	}
 
+	// segments live in pool buffers of mtuLimit bytes: a larger mss cannot be honoured
+	if mtu-IKCP_OVERHEAD > mtuLimit {
+		return -1
+	}
+
 	kcp.mtu = uint32(mtu)
 	kcp.mss = kcp.mtu - IKCP_OVERHEAD
 	kcp.buffer = make([]byte, (mtu+IKCP_OVERHEAD)*3)
